@@ -148,8 +148,16 @@ class FileModel:
             return MUST_ACCEPT, "retrieve"
         raise ValueError(o)
 
+    @staticmethod
+    def content_key(c):
+        """What an isotherm IS: type, labels, metadata, material (name and properties), adsorbate, data incl. the order
+        of points and branch marks.  Two uploads are duplicates iff this is equal - an identifier that coincides for
+        different content (or differs for equal content) does not change that."""
+        return json.dumps([c["loose"], c["mat"]], sort_keys=True)
+
     def _classify_iso_upload(self, op, c):
-        if c["iso_id"] in self.isos:
+        ck = self.content_key(c)
+        if any(e.get("ck") == ck for e in self.isos.values()):
             return MUST_REFUSE, "duplicate"
         it = ISO_TYPE_OF.get(c["type"])
         if it not in self.ptypes["isotype"]:
@@ -245,7 +253,7 @@ class FileModel:
             self.ads[c["aname"]] = c["ads"]
             for p in self.prop_names(c["ads"]):
                 self.ptypes["adsorbate"].setdefault(p, {"unit": None, "description": None})
-        self.isos[c["iso_id"]] = {"content": c, "mname": c["mname"], "aname": c["aname"],
+        self.isos[c["iso_id"]] = {"content": c, "ck": self.content_key(c), "mname": c["mname"], "aname": c["aname"],
                                   "iso_type": ISO_TYPE_OF.get(c["type"]), "temperature": c["temperature"]}
 
     # ------------------------------------------------------------------ expected retrievals
